@@ -4,6 +4,7 @@ never exceed what was offered, the window geometry is kept, a recorded failure m
 fail the same way without touching anything. Helper lemmas for Props/C13.
 -/
 import MinizProof.Lemmas.InflBytes
+import MinizProof.Props.C05
 set_option maxRecDepth 100000
 namespace Model.Core
 open Spec Model.InflB
@@ -108,6 +109,101 @@ theorem runInfl_counts (flags : Nat) : ∀ (calls : List (Array UInt8 × Nat)) (
     rcases List.mem_cons.mp hx with h | h
     · rw [h]; exact ⟨hc, ho⟩
     · exact ih w' _ g' x h
+
+/-- PROGRESS FOR EVERY INPUT: a call that is offered input and room, on a state that has not failed,
+    either consumes something, hands something over, or returns a terminal result (stream end, data
+    error, buffer error) — whatever the bytes are. With the classification of C05 (a call ends in one of
+    eight statuses; "block boundary" only under its flag) and the decoder's own progress facts (C08:
+    "needs more input" means all input was consumed, "has more output" means the window is full). -/
+theorem inflateNone_progress (flags : Nat) (hstop : hasFlag flags fStopOnBlockBoundary = false) (w : WB)
+    (inp : Array UInt8) (room : Nat) (hg : WGeo w) (hi : 0 < inp.size) (hr : 0 < room) :
+    0 < (inflateNone flags w inp room).2.consumed ∨ 0 < (inflateNone flags w inp room).2.out.size ∨
+    (inflateNone flags w inp room).2.status = rStreamEnd ∨ (inflateNone flags w inp room).2.status = rData ∨
+    (inflateNone flags w inp room).2.status = rBuf := by
+  unfold inflateNone
+  split
+  · exact .inr (.inr (.inr (.inr rfl)))
+  · split
+    · exact .inr (.inr (.inr (.inl rfl)))
+    · split
+      · rename_i ha
+        obtain ⟨_, _, _, hbsz, _, _⟩ := push_split hg room
+        generalize hp : push w room = pr at hbsz
+        obtain ⟨bytes, w2⟩ := pr
+        dsimp only at hbsz ⊢
+        exact .inr (.inl (by rw [hbsz]; omega))
+      · rename_i ha
+        have ha0 : w.avail = 0 := by
+          by_cases h : w.avail = 0
+          · exact h
+          · exact absurd h ha
+        -- the first iteration of the loop
+        have hf : inp.size + room + 2 = (inp.size + room + 1) + 1 := by omega
+        rw [hf]
+        have hcl := C05.call_always_terminates w.r inp w.dict w.ofs (dictSize - w.ofs) flags
+        have hfacts := decompress_facts w.r inp w.dict w.ofs (dictSize - w.ofs) flags
+        dsimp only at hcl
+        generalize hres : decompress w.r inp w.dict w.ofs (dictSize - w.ofs) flags = rs at hcl hfacts
+        have hgeo1 : WGeo { w with r := rs.r, dict := rs.out, last := rs.status, avail := rs.written } :=
+          ⟨hg.ofsLt, by show rs.out.size = dictSize; rw [hfacts.size]; exact hg.dsz,
+           by show w.ofs + rs.written ≤ dictSize; have := hfacts.wBudget; have := hg.ofsLt; omega⟩
+        obtain ⟨hgeo2, _, _, hbsz, hav2, _⟩ := push_split hgeo1 room
+        unfold loopNone
+        simp only [hres]
+        generalize hp : push { w with r := rs.r, dict := rs.out, last := rs.status, avail := rs.written } room = pr at hgeo2 hbsz hav2
+        obtain ⟨bytes, w2⟩ := pr
+        dsimp only at hgeo2 hbsz hav2
+        simp only
+        split
+        · exact .inr (.inr (.inr (.inr rfl)))
+        · rename_i hncmp
+          split
+          · exact .inr (.inr (.inr (.inl rfl)))
+          · rename_i hnn
+            split
+            · exact .inr (.inr (.inr (.inr rfl)))
+            · rename_i hnb
+              -- the status is Done, NeedsMoreInput or HasMoreOutput
+              have h3 : rs.status = stDone ∨ rs.status = stNeedsMoreInput ∨ rs.status = stHasMoreOutput := by
+                rcases hcl with h | h | h | h | h | h | h | h
+                · rw [h] at hnn; exact absurd (by decide) hnn
+                · rw [h] at hnn; exact absurd (by decide) hnn
+                · rw [h] at hnn; exact absurd (by decide) hnn
+                · exact .inl h
+                · exact .inr (.inl h)
+                · exact .inr (.inr h)
+                · exact absurd h hncmp
+                · rw [hstop] at h; exact absurd h.2 (by decide)
+              -- what this first inner call achieved
+              have hprog : 0 < rs.consumed ∨ 0 < bytes.size ∨ (rs.status = stDone ∧ w2.avail = 0) := by
+                rcases h3 with h | h | h
+                · by_cases hw : rs.written = 0
+                  · right; right; exact ⟨h, by rw [hav2]; show rs.written - min rs.written room = 0; omega⟩
+                  · right; left; rw [hbsz]; show 0 < min rs.written room; omega
+                · left; rw [hfacts.nmi (.inl h)]; exact hi
+                · right; left
+                  have hw := hfacts.hmo h
+                  have := hg.ofsLt; have := hg.dsz
+                  rw [hbsz]; show 0 < min rs.written room; omega
+              split
+              · split
+                · exact .inr (.inr (.inl rfl))
+                · rename_i hx hne
+                  rcases hprog with h | h | h
+                  · exact .inl (by show 0 < 0 + rs.consumed; omega)
+                  · exact .inr (.inl (by show 0 < (#[] ++ bytes).size; simpa using h))
+                  · exact absurd h hne
+              · rename_i hx
+                have h0 : w2.avail = 0 := by
+                  by_cases h0 : w2.avail = 0
+                  · exact h0
+                  · exact absurd (.inr (.inr (.inr h0))) hx
+                obtain ⟨_, ⟨n, hn, _⟩, ⟨new, ho, _⟩⟩ := loopNone_counts flags inp.size (inp.size + room + 1) w2
+                  (inp.extract rs.consumed inp.size) (room - bytes.size) (0 + rs.consumed) (#[] ++ bytes) hgeo2 h0
+                rcases hprog with h | h | h
+                · exact .inl (by rw [hn]; omega)
+                · exact .inr (.inl (by rw [ho]; simp; omega))
+                · exact absurd (.inl h.1) hx
 
 theorem fresh_geo : WGeo WB.fresh := ⟨by decide, by simp [WB.fresh], by decide⟩
 
